@@ -25,6 +25,11 @@ use tokio_tungstenite::tungstenite::handshake::server::{ErrorResponse, Request, 
 pub const TARGET_HOST: &str = "127.0.0.1";
 pub const TARGET_PORT: u16 = 7;
 
+/// A `silent` server answers Pings until it has written this many Pongs or this much time
+/// has passed since the WebSocket handshake, whichever comes first.
+pub const SILENT_PONGS: u32 = 2;
+pub const SILENT_ANSWERS_FOR: Duration = Duration::from_millis(700);
+
 #[derive(Clone, Debug, Default)]
 pub struct AttemptLog {
     /// `accept()` returned at the fake server
@@ -40,6 +45,14 @@ pub struct AttemptLog {
     pub first_bin_ms: Option<f64>,
     /// the peer closed / the connection ended as seen by the server
     pub peer_end_ms: Option<f64>,
+    /// `silent`: Pongs written so far, and the times taken immediately before / after the last one was flushed
+    pub pongs: u32,
+    pub pong_before_ms: Option<f64>,
+    pub pong_after_ms: Option<f64>,
+    /// `silent`: from here on the server neither reads nor writes (the TCP connection stays open)
+    pub silent_ms: Option<f64>,
+    /// `tls-stall`: first byte the client sent, peeked and left in the socket (0x16: a TLS handshake record)
+    pub first_byte: Option<u8>,
 }
 
 #[derive(Clone, Debug)]
@@ -178,6 +191,16 @@ async fn handle(mut stream: TcpStream, j: usize, beh: Option<Beh>, sh: Arc<Share
             drain_tcp(&mut stream, Duration::from_secs(120)).await;
             set(&|a, t| a.peer_end_ms = Some(t));
         }
+        Beh::TlsStall => {
+            // never answers the TLS ClientHello: nothing is consumed, nothing is written, the
+            // connection stays open (the peek only shows what the client opened with)
+            let mut b = [0u8; 1];
+            if let Ok(Ok(1)) = tokio::time::timeout(Duration::from_secs(60), stream.peek(&mut b)).await {
+                sh.with(|l| l.attempts[j].first_byte = Some(b[0]));
+            }
+            tokio::time::sleep(Duration::from_secs(120)).await;
+            drop(stream);
+        }
         Beh::Reset => {
             set(&|a, t| a.act_before_ms = Some(t));
             drop(stream);
@@ -192,7 +215,7 @@ async fn handle(mut stream: TcpStream, j: usize, beh: Option<Beh>, sh: Arc<Share
             drain_tcp(&mut stream, Duration::from_secs(10)).await;
             set(&|a, t| a.peer_end_ms = Some(t));
         }
-        Beh::Close0 | Beh::Close300 | Beh::Drop | Beh::Mute | Beh::Healthy => {
+        Beh::Close0 | Beh::Close300 | Beh::Drop | Beh::Mute | Beh::Silent | Beh::Healthy => {
             let mut ws = match tokio_tungstenite::accept_hdr_async(stream, echo_subprotocol).await {
                 Ok(ws) => ws,
                 Err(e) => {
@@ -218,6 +241,54 @@ async fn handle(mut stream: TcpStream, j: usize, beh: Option<Beh>, sh: Arc<Share
                     set(&|a, t| a.act_before_ms = Some(t));
                     drop(ws);
                     set(&|a, t| a.act_after_ms = Some(t));
+                }
+                Beh::Silent => {
+                    // answers Pings for a short while (tungstenite queues the Pong when the Ping
+                    // is read; it is written by the flush below), then neither reads nor writes
+                    // any more while the TCP connection stays open
+                    let started = Instant::now();
+                    let mut pongs = 0u32;
+                    while pongs < SILENT_PONGS {
+                        let left = SILENT_ANSWERS_FOR.saturating_sub(started.elapsed());
+                        if left.is_zero() {
+                            break;
+                        }
+                        match tokio::time::timeout(left, ws.next()).await {
+                            Err(_) => break,
+                            Ok(Some(Ok(Message::Ping(_)))) => {
+                                let before = sh.now_ms();
+                                let ok = ws.flush().await.is_ok();
+                                let after = sh.now_ms();
+                                if ok {
+                                    pongs += 1;
+                                    sh.with(|l| {
+                                        let a = &mut l.attempts[j];
+                                        a.pongs = pongs;
+                                        a.pong_before_ms = Some(before);
+                                        a.pong_after_ms = Some(after);
+                                    });
+                                }
+                            }
+                            Ok(Some(Ok(m))) => {
+                                if matches!(m, Message::Binary(_)) {
+                                    let t = sh.now_ms();
+                                    sh.with(|l| {
+                                        let a = &mut l.attempts[j];
+                                        if a.first_bin_ms.is_none() {
+                                            a.first_bin_ms = Some(t);
+                                        }
+                                    });
+                                }
+                            }
+                            Ok(Some(Err(_)) | None) => {
+                                set(&|a, t| a.peer_end_ms = Some(t));
+                                return;
+                            }
+                        }
+                    }
+                    set(&|a, t| a.silent_ms = Some(t));
+                    tokio::time::sleep(Duration::from_secs(120)).await;
+                    drop(ws);
                 }
                 Beh::Mute => {
                     // reads everything, never answers a `Connect`
@@ -301,17 +372,35 @@ fn classify(e: &client::Error) -> String {
     }
 }
 
+/// What the client under test is started with (everything else is the default).
+#[derive(Clone, Copy, Debug)]
+pub struct ClientCfg {
+    pub sport: u16,
+    pub lport: u16,
+    pub max_retry_count: u32,
+    pub max_retry_interval_ms: u64,
+    /// `--keepalive` / `--keepalive-timeout` in ms (None: keepalive off)
+    pub keepalive_ms: Option<(u64, u64)>,
+    /// `wss://` server URL with `--tls-skip-verify` instead of `ws://`
+    pub wss: bool,
+    pub handshake_timeout_ms: u64,
+    pub channel_timeout_ms: u64,
+}
+
 /// Spawn the real `client_main_inner` with one TCP remote `127.0.0.1:lport -> TARGET`.
-pub fn spawn_client(sport: u16, lport: u16, max_retry_count: u32, max_retry_interval_ms: u64, sh: Arc<Shared>) -> tokio::task::JoinHandle<()> {
+pub fn spawn_client(cfg: ClientCfg, sh: Arc<Shared>) -> tokio::task::JoinHandle<()> {
+    let ClientCfg { sport, lport, .. } = cfg;
+    let ms = |x: u64| OptionalDuration::from(Duration::from_millis(x));
     let args = ClientArgs {
-        server: ServerUrl::from_str(&format!("ws://127.0.0.1:{sport}/ws")).expect("server url"),
+        server: ServerUrl::from_str(&format!("{}://127.0.0.1:{sport}/ws", if cfg.wss { "wss" } else { "ws" })).expect("server url"),
         remote: vec![Remote::from_str(&format!("127.0.0.1:{lport}:{TARGET_HOST}:{TARGET_PORT}")).expect("remote")],
-        keepalive: OptionalDuration::NONE,
-        keepalive_timeout: OptionalDuration::NONE,
-        max_retry_count,
-        max_retry_interval: max_retry_interval_ms,
-        handshake_timeout: OptionalDuration::from_secs(1),
-        channel_timeout: OptionalDuration::from_secs(1),
+        keepalive: cfg.keepalive_ms.map_or(OptionalDuration::NONE, |(i, _)| ms(i)),
+        keepalive_timeout: cfg.keepalive_ms.map_or(OptionalDuration::NONE, |(_, t)| ms(t)),
+        max_retry_count: cfg.max_retry_count,
+        max_retry_interval: cfg.max_retry_interval_ms,
+        handshake_timeout: ms(cfg.handshake_timeout_ms),
+        channel_timeout: ms(cfg.channel_timeout_ms),
+        tls_skip_verify: cfg.wss,
         ..Default::default()
     };
     let args: &'static ClientArgs = Box::leak(Box::new(args));
